@@ -212,8 +212,15 @@ def run(program, rep, tier):
                 and e.target is not None and e.target.text == 'self._cached']
         if ex.kind == 'raise':
             continue
-        if not sets or not (isinstance(sets[-1].sym.node, ast.Constant)
-                            and sets[-1].sym.node.value is False):
+        v_ = sets[-1].sym.node if sets else None
+        if isinstance(v_, ast.Attribute) and isinstance(v_.value, ast.Name):
+            # Handle._cached: the class-level default, a constant
+            c_ = program.lookup_class(cl.module, v_.value.id)
+            if c_ is not None and isinstance(c_.attrs.get(v_.attr),
+                                             ast.Constant):
+                v_ = c_.attrs[v_.attr]
+        if not sets or not (isinstance(v_, ast.Constant)
+                            and v_.value is False):
             bad = ex
     order_bad = None
     for ex in exits:
